@@ -19,6 +19,7 @@ import JsonV.Lemmas.PointerSim
 import JsonV.Lemmas.PointerMachine
 import JsonV.Lemmas.PositionTok
 import JsonV.Lemmas.PointerErr
+import JsonV.Lemmas.PositionLex
 
 namespace JsonV.Props.C16
 open JsonV JsonV.Model JsonV.Model.Pointer JsonV.Spec.Pointer JsonV.Lemmas.Pointer
@@ -268,12 +269,17 @@ theorem f2_counterexample :
     ¬ Viable maxNestingDepth [.beginObj, .lit] := by
   refine ⟨by decide, by decide +kernel, by decide, by decide +kernel, by decide, by decide⟩
 
-/-- NOT PROVED (lexical errors in VALUE position): the part of a token before the lexer's error offset can be completed
-to a token of the same kind, so that together with `err_viable_partial` the bytes before `ByteOffset` are a viable
-prefix of JSON at byte level.  Checked by the harness tracker on mutated texts. -/
-def err_viable_lexical_full : Prop :=
-  ∀ (o : VOpts) (r : Bytes) (n : Nat) (e : Err), lexer o r = some (n, e) → e ≠ .ok → e ≠ .fuel → e ≠ .bug →
-    ∃ ext m, lexer o (r.take n ++ ext) = some (m, .ok) ∧ n ≤ m
+/-- **err_viable, lexical part**: whenever the lexer of a token (literal, number or string) fails at relative offset
+`n`, the bytes of the token before that offset can be completed to a token of the same kind that the lexer accepts
+(`nul` → `null`, `1.` → `1.0`, `"ab\x` → `"ab"`; a truncated number is reported at offset 0).  Together with
+`err_viable_partial`: `input[:ByteOffset]` = viable token kinds + blanks + a completable token prefix — a viable prefix
+of JSON at byte level whenever the state machine accepts that token kind (it does not in NAME position: `f2_counterexample`). -/
+theorem err_viable_lexical (o : VOpts) (r : Bytes) (n : Nat) (e : Err) (h : lexer o r = some (n, e)) (he : e ≠ .ok) :
+    ∃ ext m, lexer o (r.take n ++ ext) = some (m, .ok) ∧ n ≤ m :=
+  lexical_completion o r n e h he
+
+example : lexer {} [0x6e, 0x75, 0x6c, 0x7d] = some (3, .invalidChar) ∧ lexer {} [0x31, 0x2e, 0x78] = some (2, .invalidChar) ∧
+    lexer {} [0x22, 0x61, 0x5c, 0x78] = some (2, .invalidEscape) := by decide
 
 example : (reads {} 3 {} [0x7b, 0x22, 0x61, 0x22, 0x3a, 0x5b, 0x5d] 0).map (fun x => (x.2.1, stackDepth x.1.m, stackIndex x.1.m 1)) =
     some (6, 2, some (0x7b, 2)) := by decide
